@@ -131,7 +131,8 @@ def load_known() -> list[dict]:
 def finish(ctx: Ctx, t0: float, level_explanation: str, assumptions: list[str],
            write: bool = True, selftest: dict | None = None) -> int:
     """Apply known findings, print report, write evidence; return exit code."""
-    ctx.check_floors()
+    if not getattr(ctx, "incomplete", False):
+        ctx.check_floors()
     known = [k for k in load_known() if k.get("property") == ctx.prop]
     open_ids = {}
     for k in known:
